@@ -194,7 +194,7 @@ META["C10"] = dict(
 )
 META["C01"] = dict(
     text="Kernel-checked theorem C01_static: for every module and option set that meets four decidable WGSL-side conditions (namesBenignB: no WGSL name collides with a generated item, "
-         "also through to_uppercase / to_snake; deriveBenignB: no bool under Pod / ShaderType, no f64 under ShaderType, no array longer than 32 under serde; shadowBenignB: no struct named like a "
+         "also through to_uppercase / to_snake; deriveBenignB: no bool under Pod / ShaderType, no f64 under ShaderType, no array longer than 32 under serde, no host-shareable struct of builtin members only under encase; shadowBenignB: no struct named like a "
          "crate or prelude type, no lower-case constant; vertexInputsEmittedB: a vertex input struct is not also an entry point's return type) and every successful generation on the prettyplease path, "
          "the executable static semantics Ext.RustStatic finds NOTHING in the generated module: no item / parameter / field defined twice, no shadowed crate or prelude name, every referenced item "
          "defined (field types, attribute tables and their fields, ENTRY_* constants, vertex_buffer_layout, OverrideConstants, group items), every derive satisfiable by every field type in all "
@@ -203,8 +203,9 @@ META["C01"] = dict(
          "Partial because 'rustc accepts' itself is decided by rustc: Ext.RustStatic is a transcription, VALIDATED on every run against rustc both ways (a module rustc accepts must have no definite "
          "issue; every rejection must be explained by an issue): the check compiles the real generated modules (7 option sets quick, 13 thorough) against the real wgpu 24 / bytemuck / encase / glam / serde, "
          "recognising the permitted failures by their const-evaluation messages, and evaluates the theorem's conclusion on the REAL output of every module that meets the hypotheses. "
-         "Recorded classes of rejected modules are known findings; any other rejection, any disagreement between Ext.RustStatic and rustc, and any model/implementation difference is a violation.",
-    design_ref="DESIGN.md sections 5 (C01) and 13.8",
+         "Recorded classes of rejected modules are known findings; any other rejection, any disagreement between Ext.RustStatic and rustc, and any model/implementation difference is a violation. "
+         "The fixtures and two generator profiles are also compiled as the REAL rustfmt prints them (rustfmt on): a module rustc accepts from the prettyplease path must be accepted from the formatter path.",
+    design_ref="DESIGN.md sections 5 (C01), 13.8, 13.17",
     note="Trusts: rustc as the judge; Ext.RustStatic (transcription of rustc's name resolution and of the derive macros' bounds for the emitted fragment, validated two-sidedly on ~1 800 (quick) / ~30 000 (thorough) "
          "real modules per run); nalgebra is not available offline (Nalgebra output is never compiled; its leaves count as implementing every trait); the rustfmt path is covered by C19.",
     technique="Lean 4 proof (static semantics of the emitted Rust fragment as an executable predicate; theorem over the generator model by induction over the type DAG and list plumbing) "
